@@ -39,7 +39,11 @@ HEX2ID = {idhex(i): i for i in range(1, 40)}
 def gen_relay(rng, i):
     r = {'id': i, 'nick': rng.choice(NICKS), 'ip': '10.0.%d.%d' % (i, rng.randrange(256)), 'orport': str(rng.choice([9001, 443])),
          'dirport': str(rng.choice([0, 9030])), 'flags': rng.sample(FLAGS, rng.randint(0, 4)),
-         'v6': ['[2001:db8::%x]:%d' % (i, 9001)] if rng.random() < 0.3 else [], 'bw': rng.choice([None, None, 0, 100, 54321]),
+         # "a" lines: an IPv6 address in hex groups, one with a dotted-quad tail (how mapped / translated addresses are printed), upper case,
+         # the unspecified-looking short form, a five-digit port; dir-spec also lets an IPv4 address stand there; sometimes two different lines
+         'v6': rng.choice([['[2001:db8::%x]:%d' % (i, 9001)], ['[::ffff:192.0.2.%d]:9001' % i], ['[64:ff9b::203.0.113.%d]:%d' % (i, 9002)],
+                           ['[2001:DB8::A%x]:65535' % i], ['[::1]:1'], ['10.9.%d.1:9001' % i], ['[2001:db8::%x]:443' % i, '[::ffff:10.0.0.%d]:80' % i]])
+         if rng.random() < 0.35 else [], 'bw': rng.choice([None, None, 0, 100, 54321]),
          'p': rng.random() < 0.6, 'v6twice': rng.random() < 0.1,
          'pub': rng.choice(['2030-01-01 00:00:00', '2030-01-01 00:00:00', '2029-12-31 23:59:59', '2030-01-02 12:00:00', '2038-01-19 03:14:07', '1999-09-09 09:09:09']),
          # dir-spec: "w" SP "Bandwidth=" INT [SP "Measured=" INT] [SP "Unmeasured=1"]
